@@ -242,7 +242,11 @@ def _read_before_write(stmts, defined):
     reads = set()
 
     def expr_reads(e):
-        return {n.id for n in ast.walk(e) if isinstance(n, ast.Name) and isinstance(n.ctx, ast.Load)}
+        bound = set()
+        for n in ast.walk(e):
+            if isinstance(n, ast.comprehension):
+                bound |= _target_names(n.target)        # names bound by a comprehension are local to it
+        return {n.id for n in ast.walk(e) if isinstance(n, ast.Name) and isinstance(n.ctx, ast.Load)} - bound
 
     def walk(block, defined):
         for s in block:
@@ -269,6 +273,26 @@ def _read_before_write(stmts, defined):
                 reads.update(expr_reads(s.iter) - defined)
                 d1 = set(defined) | _target_names(s.target)
                 walk(s.body, d1)
+            elif isinstance(s, ast.Try):
+                before = set(defined)
+                d_body = set(defined)
+                walk(s.body, d_body)
+                walk(s.orelse, d_body)
+                outs_ = [d_body]
+                for h in s.handlers:
+                    d_h = set(before)
+                    if h.name:
+                        d_h.add(h.name)
+                    walk(h.body, d_h)
+                    last = h.body[-1] if h.body else None
+                    if not isinstance(last, (ast.Break, ast.Continue, ast.Return, ast.Raise)):
+                        outs_.append(d_h)          # the handler falls through
+                common = set.intersection(*outs_)
+                walk(s.finalbody, common)
+                defined.clear()
+                defined.update(common)
+            elif isinstance(s, (ast.Break, ast.Continue, ast.Pass)):
+                pass
             elif isinstance(s, (ast.Expr, ast.Return, ast.Raise, ast.Assert)):
                 for e in ast.iter_child_nodes(s):
                     if isinstance(e, ast.expr):
@@ -359,6 +383,20 @@ class InvariantLoop(object):
         return finals
 
 
+def _same_env_value(a, b):
+    if a is b:
+        return True
+    if isinstance(a, Sc) and isinstance(b, Sc):
+        return a.t.eq(b.t)
+    if isinstance(a, (int, float, str, bool, type(None))) and isinstance(b, (int, float, str, bool, type(None))):
+        return a == b
+    if isinstance(a, (ArrRef, ObjRef, ListRef)) and type(a) is type(b):
+        return a.addr == b.addr and getattr(a, 'view', None) is getattr(b, 'view', None)
+    if isinstance(a, Quantity) and isinstance(b, Quantity):
+        return _same_env_value(a.value, b.value) and a.unit is b.unit
+    return False
+
+
 class EventLoop(object):
     """Rule for loops whose iterations are *uniform*: each iteration starts from an arbitrary
     value of the declared loop-carried state (havoc + assumed invariant), handles one fresh item,
@@ -368,13 +406,39 @@ class EventLoop(object):
     obligations ("exactly one write, of this very object, iff ...").  That the per-iteration facts
     compose sequentially in iteration order is the meta-argument T-LOOP-EVENT (trusted rule)."""
 
-    def __init__(self, name, check, havoc=None, invariant=None, item=None, after=None):
+    def __init__(self, name, check, havoc=None, invariant=None, item=None, after=None, peel=False):
         self.name = name
         self.check = check
         self.havoc = havoc
         self.invariant = invariant
         self.item = item
         self.after = after
+        self.peel = peel        # additionally execute the FIRST iteration from the actual entry state
+
+    def _check_carried(self, interp, node, pre, runs, fr, ordinal):
+        # (a) local names: assigned in the body and possibly read before being assigned in the next iteration
+        targets = _target_names(node.target) if isinstance(node, ast.For) else set()
+        assigned = _assigned_names(node.body)
+        live_in = _read_before_write(node.body, set(targets))
+        havoced_names, havoced_addrs = set(), set()
+        for hv_state, outs in runs:
+            havoced_names |= set(n for n in hv_state.env if n in pre.env and not _same_env_value(hv_state.env[n], pre.env[n])) | set(n for n in hv_state.env if n not in pre.env)
+            havoced_addrs |= set(a for a, cell in hv_state.heap.items() if a in pre.heap and pre.heap[a] is not cell) | set(a for a in hv_state.heap if a not in pre.heap)
+        bad = sorted((assigned & live_in) - havoced_names - targets)
+        if bad:
+            raise Unsupported("loop %d of %s hands %s from one iteration to the next; the loop contract does not describe that state" % (ordinal, fr.qualname, bad))
+        # (b) heap cells that existed before the loop and are changed by the body
+        for hv_state, outs in runs:
+            for s in outs:
+                if s.status not in ('run', 'continue'):
+                    continue
+                for a, cell in s.heap.items():
+                    if a in pre.heap and a not in havoced_addrs and hv_state.heap.get(a) is not cell:
+                        cls = getattr(cell, 'cls', None)
+                        if cls == '<file>':
+                            continue
+                        raise Unsupported("loop %d of %s changes %s that outlives the iteration; the loop contract does not describe that state"
+                                          % (ordinal, fr.qualname, 'an object of class %s' % cls if cls else type(cell).__name__))
 
     def run(self, interp, node, it, st, fr, ordinal):
         from .contractlib import Ctx
@@ -384,46 +448,64 @@ class EventLoop(object):
         if self.invariant:
             for nm, f in self.invariant(c0).items():
                 st.oblige('%s/loop%d.inv.%s.init' % (short, ordinal, nm), f, kind='loop')
-        body_st = st.fork()
-        c = Ctx(interp, body_st, fr)
-        if self.havoc:
-            self.havoc(c)
-        if self.invariant:
-            body_st.assume(list(self.invariant(c).values()))
-        after_st = body_st.fork()           # the state when the loop is over (loop-carried state arbitrary within the invariant)
-        if isinstance(node, ast.For):
-            item = self.item(c, it)
-            interp.assign(node.target, body_st.box(item), body_st, fr)
-        else:
-            cond = interp.truth(interp.eval(node.test, body_st, fr), body_st)
-            if cond is not True:
-                body_st.assume_pc(cond)
-                after_st.assume_pc(bnot(cond))
-        entry = body_st.fork()
-        outs = interp.exec_block(node.body, body_st, fr)
-        paths = []
+        if self.peel and isinstance(node, ast.For):
+            # first iteration, from the real entry state (the havoc below describes the state left by an iteration)
+            first = st.fork()
+            fc = Ctx(interp, first, fr)
+            interp.assign(node.target, first.box(self.item(fc, it)), first, fr)
+            first_entry = first.fork()
+            paths0 = [(s, s.events[pre_events:], s.status) for s in interp.exec_block(node.body, first, fr)]
+            for s, nm, f in (self.check(Ctx(interp, first_entry, fr), paths0) or []):
+                s.oblige('%s/loop%d.%s.first' % (short, ordinal, nm), f, kind='loop')
+        # the state left by earlier iterations: one or several alternative descriptions ("cases")
+        havocs = self.havoc if isinstance(self.havoc, (list, tuple)) else [self.havoc]
         finals = []
-        for s in outs:
-            paths.append((s, s.events[pre_events:], s.status))
-        obs = self.check(Ctx(interp, entry, fr), paths) or []
-        for s, nm, f in obs:
-            s.oblige('%s/loop%d.%s' % (short, ordinal, nm), f, kind='loop')
-        for s, ev, status in paths:
-            if status in ('run', 'continue'):
-                if self.invariant:
-                    sc = Ctx(interp, s, fr)
-                    for nm, f in self.invariant(sc).items():
-                        s.oblige('%s/loop%d.inv.%s.preserved' % (short, ordinal, nm), f, kind='loop')
-                continue                    # subsumed by the arbitrary iteration
-            if status == 'break':
-                s.status = 'run'
-                s.events = s.events[:pre_events] + [('loop', ordinal, 'exit-by-break')]
-                finals.append(s)
+        runs = []
+        for ci, hv in enumerate(havocs):
+            tag = '' if len(havocs) == 1 else '.case%d' % ci
+            body_st = st.fork()
+            c = Ctx(interp, body_st, fr)
+            if hv:
+                hv(c)
+            if self.invariant:
+                body_st.assume(list(self.invariant(c).values()))
+            havoced = body_st.fork()            # after havoc, before the item is bound
+            after_st = body_st.fork()           # the state when the loop is over (loop-carried state arbitrary within the invariant)
+            if isinstance(node, ast.For):
+                item = self.item(c, it)
+                interp.assign(node.target, body_st.box(item), body_st, fr)
             else:
-                finals.append(s)            # return / raise leave the function
-        if isinstance(node, ast.For) or not (isinstance(node.test, ast.Constant) and node.test.value is True):
-            after_st.events = after_st.events[:pre_events] + [('loop', ordinal, 'exhausted')]
-            if self.after:
-                self.after(Ctx(interp, after_st, fr))
-            finals.append(after_st)
+                cond = interp.truth(interp.eval(node.test, body_st, fr), body_st)
+                if cond is not True:
+                    body_st.assume_pc(cond)
+                    after_st.assume_pc(bnot(cond))
+            entry = body_st.fork()
+            outs = interp.exec_block(node.body, body_st, fr)
+            paths = [(s, s.events[pre_events:], s.status) for s in outs]
+            runs.append((havoced, outs))
+            obs = self.check(Ctx(interp, entry, fr), paths) or []
+            for s, nm, f in obs:
+                s.oblige('%s/loop%d.%s%s' % (short, ordinal, nm, tag), f, kind='loop')
+            for s, ev, status in paths:
+                if status in ('run', 'continue'):
+                    if self.invariant:
+                        sc = Ctx(interp, s, fr)
+                        for nm, f in self.invariant(sc).items():
+                            s.oblige('%s/loop%d.inv.%s.preserved%s' % (short, ordinal, nm, tag), f, kind='loop')
+                    continue                    # subsumed by the arbitrary iteration
+                if status == 'break':
+                    s.status = 'run'
+                    s.events = s.events[:pre_events] + [('loop', ordinal, 'exit-by-break')]
+                    finals.append(s)
+                else:
+                    finals.append(s)            # return / raise leave the function
+            if isinstance(node, ast.For) or not (isinstance(node.test, ast.Constant) and node.test.value is True):
+                after_st.events = after_st.events[:pre_events] + [('loop', ordinal, 'exhausted')]
+                if self.after:
+                    self.after(Ctx(interp, after_st, fr))
+                finals.append(after_st)
+        # side condition of the rule: every piece of state an iteration hands to the next one must have been made
+        # arbitrary by `havoc` in some case (or be a file, whose changes are the recorded events); otherwise the
+        # "arbitrary iteration" would silently start from the loop's INITIAL state
+        self._check_carried(interp, node, st, runs, fr, ordinal)
         return finals
